@@ -6,6 +6,10 @@ import os
 VERIF = os.path.dirname(os.path.dirname(os.path.abspath(__file__)))
 
 CLAIMED = {
+    "C16": dict(cat="exploration", design="§5 C16", engine="cview",
+                text="A C program compiled by gcc and clang with ASan+UBSan includes only the published declarations (cview/cglue_rt.h) and operates values created by Rust - and forges values consumed by Rust - over seeded operation sequences; Rust-side drop/refcount counters and C-side models are compared after every step; debug and release (thorough: randomized repr(Rust) layout) builds of the library.",
+                note="Trusts the hand-written header as the published C view (cross-checked against examples/pregen-headers).",
+                tech="runtime monitoring: C driver over published declarations + ASan/UBSan + counter oracles"),
     "C20": dict(cat="exploration", design="§5 C20", engine="glue",
                 text="Generated (definition, single-edit variant) pairs are expanded by the real macros with layout_checks on; the library's compare_layouts is executed on every pair in both directions, on self-pairs and with a missing side, and compared with an expectation computed from our own C-signature tables; VerifyLayout::and is run on all nine pairs.",
                 note="Trusts the generator's C-signature table as the definition of 'C-visible interface'.",
@@ -103,6 +107,7 @@ def main():
                    baseline_off_cmd="cd /repo && cargo test --workspace --no-fail-fast --offline",
                    source_commits=[], add_only=True),
         engines=[
+            dict(name="cview", path="cview/", serves_properties=["C16"], kind_free_text="C header of the published runtime-type declarations, C driver, Rust staticlib of constructors/consumers/counters"),
             dict(name="probe", path="probe/", serves_properties=["C09"], kind_free_text="auto-trait matrix probe and safe-code race witnesses"),
             dict(name="expander", path="expander/", serves_properties=["C03", "C04"],
                  kind_free_text="binary linking cglue-gen as a library: runs the real code generator on definition files and prints the expansion"),
